@@ -13,7 +13,8 @@ from .terms import NotEncodable
 
 VERIF = os.path.dirname(os.path.dirname(os.path.dirname(os.path.abspath(__file__))))
 REPO = os.environ.get("VERIF_REPO", "/repo")
-BUILD = os.path.join(VERIF, ".build")
+from .. import common as _C
+BUILD = _C.BUILD
 MIRDIR = os.path.join(BUILD, "mir")
 QROOT = os.path.join(BUILD, "mirsmt")
 QDIR = os.path.join(QROOT, f"run-{os.getpid()}")     # per process: concurrent runs must not overwrite each other's query files
